@@ -35,8 +35,9 @@ VARIABLES l, skip, run, opts,
           doneOwed,    \* cancelled invocations whose child had completed: their done event MAY still arrive
           csent,       \* c.* events sent by the child and not yet processed by the parent (FIFO)
           goSent, goGot,  \* "go" sent by the parent / processed by the child in this invocation
-          finPending   \* finalize content ran and the child's event is not processed yet
-tvars == <<l, skip, run, opts, inP1, running, cancelling, ownDone, doneSeen, doneOwed, csent, goSent, goGot, finPending>>
+          finPending,  \* finalize content ran and the child's event is not processed yet
+          invFresh     \* an invocation was started and the macrostep end (stable notice) was not announced yet
+tvars == <<l, skip, run, opts, inP1, running, cancelling, ownDone, doneSeen, doneOwed, csent, goSent, goGot, finPending, invFresh>>
 
 Report(v) == PrintT("VERDICT " \o ToJson(v))
 Line == Log[l]
@@ -44,13 +45,14 @@ Line == Log[l]
 IInit == /\ TLCSet(1, ndJsonDeserialize(IOEnv.TRACE))
          /\ l = 1 /\ skip = TRUE /\ run = 0 /\ opts = [autoforward |-> FALSE, finalize |-> FALSE, child |-> 0]
          /\ inP1 = FALSE /\ running = FALSE /\ cancelling = FALSE /\ ownDone = FALSE /\ doneSeen = FALSE /\ doneOwed = 0
-         /\ csent = <<>> /\ goSent = 0 /\ goGot = 0 /\ finPending = FALSE
+         /\ csent = <<>> /\ goSent = 0 /\ goGot = 0 /\ finPending = FALSE /\ invFresh = FALSE
 
 IReset == /\ Line.k = "reset"
           /\ run' = Line.run /\ opts' = [autoforward |-> Line.autoforward, finalize |-> Line.finalize, child |-> Line.child]
           /\ skip' = (Line.scenario # "one")      \* runs of the other scenario are judged by Trace_InvokeAll
           /\ inP1' = FALSE /\ running' = FALSE /\ cancelling' = FALSE /\ ownDone' = FALSE
           /\ doneSeen' = FALSE /\ doneOwed' = 0 /\ csent' = <<>> /\ goSent' = 0 /\ goGot' = 0 /\ finPending' = FALSE
+          /\ invFresh' = FALSE
           /\ l' = l + 1
 
 Verdict(why) == [case |-> run, chart |-> 0, exec |-> "mt_invoke", line |-> l, property |-> "C11", why |-> why,
@@ -58,7 +60,7 @@ Verdict(why) == [case |-> run, chart |-> 0, exec |-> "mt_invoke", line |-> l, pr
                  expected |-> [inP1 |-> inP1, running |-> running, cancelling |-> cancelling, ownDone |-> ownDone,
                                doneSeen |-> doneSeen, csent |-> csent, opts |-> opts], extra |-> <<>>]
 
-Keep == UNCHANGED <<run, opts, inP1, running, cancelling, ownDone, doneSeen, doneOwed, csent, goSent, goGot, finPending>>
+Keep == UNCHANGED <<run, opts, inP1, running, cancelling, ownDone, doneSeen, doneOwed, csent, goSent, goGot, finPending, invFresh>>
 Bad(why) == Report(Verdict(why)) /\ skip' = TRUE /\ Keep
 
 IsChildEvent(n) == n \in {"c.1", "c.2", "c.3", "c.pong", "c.fwd", "c.late"}
@@ -70,47 +72,52 @@ IParent ==
            a == Line.a
        IN
        CASE cb = "bES" /\ a = "p1" ->
-              inP1' = TRUE /\ UNCHANGED <<skip, run, opts, running, cancelling, ownDone, doneSeen, doneOwed, csent, goSent, goGot, finPending>>
+              inP1' = TRUE /\ UNCHANGED <<skip, run, opts, running, cancelling, ownDone, doneSeen, doneOwed, csent, goSent, goGot, finPending, invFresh>>
          [] cb = "bXS" /\ a = "p1" ->
-              inP1' = FALSE /\ UNCHANGED <<skip, run, opts, running, cancelling, ownDone, doneSeen, doneOwed, csent, goSent, goGot, finPending>>
+              inP1' = FALSE /\ UNCHANGED <<skip, run, opts, running, cancelling, ownDone, doneSeen, doneOwed, csent, goSent, goGot, finPending, invFresh>>
          [] cb = "bIV" ->
               IF inP1 /\ ~running
               THEN /\ running' = TRUE /\ ownDone' = FALSE /\ doneSeen' = FALSE /\ goSent' = 0 /\ goGot' = 0
+                   /\ invFresh' = TRUE
                    /\ UNCHANGED <<skip, run, opts, inP1, cancelling, doneOwed, csent, finPending>>
               ELSE Bad("invoke-started-twice-or-outside-its-state")
          [] cb = "bUI" ->
               IF running /\ ~cancelling /\ ~inP1
-              THEN cancelling' = TRUE /\ UNCHANGED <<skip, run, opts, inP1, running, ownDone, doneSeen, doneOwed, csent, goSent, goGot, finPending>>
+              THEN cancelling' = TRUE /\ UNCHANGED <<skip, run, opts, inP1, running, ownDone, doneSeen, doneOwed, csent, goSent, goGot, finPending, invFresh>>
               ELSE Bad("invoke-cancelled-twice-or-while-its-state-is-active")
          [] cb = "aUI" ->
               IF cancelling
               THEN /\ running' = FALSE /\ cancelling' = FALSE
                    \* what the child sent and the parent has not processed may still be queued; it was sent before the cancellation
                    /\ doneOwed' = doneOwed + (IF ownDone /\ ~doneSeen THEN 1 ELSE 0)
-                   /\ UNCHANGED <<skip, run, opts, inP1, ownDone, doneSeen, csent, goSent, goGot, finPending>>
+                   /\ UNCHANGED <<skip, run, opts, inP1, ownDone, doneSeen, csent, goSent, goGot, finPending, invFresh>>
               ELSE Bad("afterUninvoking-without-beforeUninvoking")
          [] cb = "oSC" ->
               \* a macrostep of the parent ended
               IF inP1 /\ ~running THEN Bad("macrostep-ended-with-state-active-but-invoke-not-started")
               ELSE IF ~inP1 /\ running THEN Bad("macrostep-ended-with-state-exited-but-invoke-not-cancelled")
-              ELSE skip' = FALSE /\ Keep
+              ELSE /\ skip' = FALSE /\ invFresh' = FALSE
+                   /\ UNCHANGED <<run, opts, inP1, running, cancelling, ownDone, doneSeen, doneOwed, csent, goSent, goGot, finPending>>
+         [] cb = "bMS" /\ invFresh ->
+              \* invocations are started when the macrostep is over: no further micro-step before the stable notice
+              Bad("invoke-started-before-the-macrostep-ended")
          [] cb = "bPE" /\ a = "done.invoke.K" ->
               IF running /\ ownDone /\ ~doneSeen
-              THEN doneSeen' = TRUE /\ UNCHANGED <<skip, run, opts, inP1, running, cancelling, ownDone, doneOwed, csent, goSent, goGot, finPending>>
+              THEN doneSeen' = TRUE /\ UNCHANGED <<skip, run, opts, inP1, running, cancelling, ownDone, doneOwed, csent, goSent, goGot, finPending, invFresh>>
               ELSE IF doneOwed > 0
-              THEN doneOwed' = doneOwed - 1 /\ UNCHANGED <<skip, run, opts, inP1, running, cancelling, ownDone, doneSeen, csent, goSent, goGot, finPending>>
+              THEN doneOwed' = doneOwed - 1 /\ UNCHANGED <<skip, run, opts, inP1, running, cancelling, ownDone, doneSeen, csent, goSent, goGot, finPending, invFresh>>
               ELSE Bad("done.invoke-without-child-completion-or-twice")
          [] cb = "bPE" /\ IsChildEvent(a) ->
               IF a = "c.late" THEN Bad("event-sent-by-cancelled-child-reached-parent")
               ELSE IF csent = <<>> \/ Head(csent) # a THEN Bad("child-event-out-of-order-duplicated-or-never-sent")
               ELSE IF opts.finalize /\ ~finPending THEN Bad("child-event-processed-before-finalize")
               ELSE csent' = Tail(csent) /\ finPending' = FALSE
-                   /\ UNCHANGED <<skip, run, opts, inP1, running, cancelling, ownDone, doneSeen, doneOwed, goSent, goGot>>
+                   /\ UNCHANGED <<skip, run, opts, inP1, running, cancelling, ownDone, doneSeen, doneOwed, goSent, goGot, invFresh>>
          [] cb = "bEC" /\ a = "log:fin" ->
               IF ~opts.finalize THEN Bad("finalize-content-without-finalize")
-              ELSE finPending' = TRUE /\ UNCHANGED <<skip, run, opts, inP1, running, cancelling, ownDone, doneSeen, doneOwed, csent, goSent, goGot>>
+              ELSE finPending' = TRUE /\ UNCHANGED <<skip, run, opts, inP1, running, cancelling, ownDone, doneSeen, doneOwed, csent, goSent, goGot, invFresh>>
          [] cb = "bEC" /\ a = "send:go" ->
-              goSent' = goSent + 1 /\ UNCHANGED <<skip, run, opts, inP1, running, cancelling, ownDone, doneSeen, doneOwed, csent, goGot, finPending>>
+              goSent' = goSent + 1 /\ UNCHANGED <<skip, run, opts, inP1, running, cancelling, ownDone, doneSeen, doneOwed, csent, goGot, finPending, invFresh>>
          [] OTHER -> skip' = FALSE /\ Keep
     /\ l' = l + 1
 
@@ -123,16 +130,16 @@ IChild ==
        IF ~running THEN Bad("child-session-active-outside-its-invocation")
        ELSE CASE cb = "bCO" ->
                    ownDone' = (IF cancelling THEN ownDone ELSE TRUE)
-                   /\ UNCHANGED <<skip, run, opts, inP1, running, cancelling, doneSeen, doneOwed, csent, goSent, goGot, finPending>>
+                   /\ UNCHANGED <<skip, run, opts, inP1, running, cancelling, doneSeen, doneOwed, csent, goSent, goGot, finPending, invFresh>>
               [] cb = "bEC" /\ a \in {"send:c.1", "send:c.2", "send:c.3", "send:c.pong", "send:c.fwd"} ->
                    \* sends of a child that is being cancelled are dropped by the parent queue gate
                    csent' = (IF cancelling THEN csent ELSE Append(csent, SubSeq(<<"c.1", "c.2", "c.3", "c.pong", "c.fwd">>,
                                  CHOOSE i \in 1..5 : <<"send:c.1", "send:c.2", "send:c.3", "send:c.pong", "send:c.fwd">>[i] = a,
                                  CHOOSE i \in 1..5 : <<"send:c.1", "send:c.2", "send:c.3", "send:c.pong", "send:c.fwd">>[i] = a)[1]))
-                   /\ UNCHANGED <<skip, run, opts, inP1, running, cancelling, ownDone, doneSeen, doneOwed, goSent, goGot, finPending>>
+                   /\ UNCHANGED <<skip, run, opts, inP1, running, cancelling, ownDone, doneSeen, doneOwed, goSent, goGot, finPending, invFresh>>
               [] cb = "bPE" /\ a = "go" ->
                    IF goGot + 1 > goSent THEN Bad("child-received-go-more-often-than-sent")
-                   ELSE goGot' = goGot + 1 /\ UNCHANGED <<skip, run, opts, inP1, running, cancelling, ownDone, doneSeen, doneOwed, csent, goSent, finPending>>
+                   ELSE goGot' = goGot + 1 /\ UNCHANGED <<skip, run, opts, inP1, running, cancelling, ownDone, doneSeen, doneOwed, csent, goSent, finPending, invFresh>>
               [] cb = "bPE" /\ a = "ping" ->
                    IF ~opts.autoforward THEN Bad("event-forwarded-without-autoforward") ELSE skip' = FALSE /\ Keep
               [] OTHER -> skip' = FALSE /\ Keep
